@@ -102,10 +102,15 @@ func (r *c15Rig) sshBackend(l net.Listener) {
 					sshBack.mu.Unlock()
 					r.mu.Lock()
 					plan := r.replyPlan[user]
+					nerr := r.stderrPlan[user]
 					r.mu.Unlock()
 					total := 0
 					for _, x := range plan {
 						total += x
+					}
+					if nerr > 0 {
+						// what a command writes to its standard error travels as extended data of the same channel
+						ch.Stderr().Write(bodyBytes("E"+user, nerr))
 					}
 					ch.Write(bodyBytes("S"+user, total))
 					ch.SendRequest("exit-status", false, ssh.Marshal(struct{ Status uint32 }{0}))
@@ -236,8 +241,22 @@ func (r *c15Rig) runSSH(ex c15Exchange, ci int, name string, res *c15Result, not
 	}
 	ch.CloseWrite()
 	if runs {
+		errDone := make(chan []byte, 1)
+		go func() {
+			b, _ := ioutil.ReadAll(io.LimitReader(ch.Stderr(), 1<<20))
+			errDone <- b
+		}()
 		out, _ := ioutil.ReadAll(io.LimitReader(ch, 1<<20))
 		res.Client[ci] = append(res.Client[ci], c15Seen{Method: "data", BodySHA: compact(out)})
+		if ex.StderrN > 0 {
+			var eb []byte
+			select {
+			case eb = <-errDone:
+			case <-time.After(2 * time.Second):
+			}
+			res.Client[ci] = append(res.Client[ci], c15Seen{Method: "stderr", BodySHA: compact(eb)})
+			res.Replied[ci] = append(res.Replied[ci], c15Seen{Method: "stderr", BodySHA: compact(bodyBytes("E"+name, ex.StderrN))})
+		}
 		total := 0
 		for _, x := range ex.Replies {
 			total += x
